@@ -869,7 +869,7 @@ def v2_deposit(ctx, la, sa, acls):
         wa = ctx.wallet()
         ln, sn = m.long_token.name, m.short_token.name
         for name in wb:
-            d = -F(float(la)) if name == ln else (-F(float(sa)) if name == sn else Fraction(0))
+            d = (-F(float(la)) if name == ln else Fraction(0)) + (-F(float(sa)) if name == sn else Fraction(0))  # one token on both sides: both legs
             mon.ev()
             if not wallet_ok(wb[name], wa[name], d):
                 mon.violation("gmx2", "deposit", "wallet-move", "long" if name == ln else "short",
@@ -917,7 +917,7 @@ def v2_deposit(ctx, la, sa, acls):
     wa = ctx.wallet()
     ln, sn = m.long_token.name, m.short_token.name
     for name in wb:
-        d = -F(float(la)) if name == ln else (-F(float(sa)) if name == sn else Fraction(0))
+        d = (-F(float(la)) if name == ln else Fraction(0)) + (-F(float(sa)) if name == sn else Fraction(0))  # one token on both sides: both legs
         mon.ev()
         if not wallet_ok(wb[name], wa[name], d):
             mon.violation("gmx2", "deposit", "wallet-move", "long" if name == ln else "short",
@@ -979,7 +979,7 @@ def v2_withdraw(ctx, gm, portion):
     wa = ctx.wallet()
     ln, sn = m.long_token.name, m.short_token.name
     for name in wb:
-        d = F(float(r.long_amount)) if name == ln else (F(float(r.short_amount)) if name == sn else Fraction(0))
+        d = (F(float(r.long_amount)) if name == ln else Fraction(0)) + (F(float(r.short_amount)) if name == sn else Fraction(0))
         mon.ev()
         if not wallet_ok(wb[name], wa[name], d):
             mon.violation("gmx2", "withdraw", "wallet-move", "long" if name == ln else "short",
@@ -1145,6 +1145,11 @@ def _v2_world(rng, n, custom_cfg):
         a, b = w.data["virtualSwapInventoryLong"].copy(), w.data["virtualSwapInventoryShort"].copy()
         w.data["virtualSwapInventoryLong"] = b / w.data["longPrice"]
         w.data["virtualSwapInventoryShort"] = a * w.data["longPrice"]
+    if rng.random() < 0.08:
+        # a single-token market (long token = short token, like BTC/USD [WBTC-WBTC]): both legs of a deposit come out of, and
+        # both legs of a withdrawal go into, the same wallet entry
+        w.short = w.long
+        w.data["shortPrice"] = w.data["longPrice"]
     vk = rng.random()
     if vk < 0.15:
         # markets without a virtual inventory (none configured), or with only one side of it: the real pool alone decides
